@@ -367,14 +367,16 @@ def main(factory_mod, factory_name, argv=None):
                 nxt = n_runs
             submit_more()
         if timed_out:
-            for f in pending:
-                f.cancel()
-            ex.shutdown(wait=False, cancel_futures=True)
+            # leaving the with-block would wait for the stuck worker: report and leave right here (never exit 0)
+            print(f"HARNESS-ERROR property={chk.prop}: worker pool did not finish within the hard deadline "
+                  f"({budget.seconds}+{tier_cfg.get('grace_s', 120)} s); runs submitted {submitted}, finished {agg['n']}", flush=True)
+            for proc in list(getattr(ex, "_processes", {}).values()):
+                try:
+                    proc.kill()
+                except Exception:
+                    pass
+            os._exit(2)
     wall = time.time() - t0
-
-    if timed_out:
-        print(f"HARNESS-ERROR property={chk.prop}: worker pool did not finish within the hard deadline")
-        os._exit(2)
     if agg["errors"]:
         i, s, msg = agg["errors"][0]
         print(f"HARNESS-ERROR property={chk.prop} run_index={i} seed={s}\n{msg}")
